@@ -68,6 +68,103 @@ fn check(run: &Run, name: &str, d: &Diagram, with_kh: bool) -> Option<Lp> {
     lj.ok()
 }
 
+/// Partially smoothed diagrams (a non-initial state: `Link::unknot()` itself is one).  For every
+/// pattern of smoothings of a small diagram the library's graded Euler characteristic and its
+/// `jones_polynomial`, with the library's own normalisation (-1)^{n-} q^{n+ - 2n-} of THAT diagram
+/// divided out, must equal the Kauffman bracket of the pattern: the state sum over the remaining
+/// crossings, sum_s (-q)^{|s|} (q + 1/q)^{circles}, which does not depend on orientations.
+fn check_partial(run: &Run, name: &str, d: &Diagram) {
+    use yui::bitseq::Bit;
+    let n = d.n;
+    let link = to_link(d);
+    for code in 1..3u32.pow(n as u32) {
+        let pat: Vec<Option<bool>> = (0..n).map(|c| match (code / 3u32.pow(c as u32)) % 3 { 0 => None, 1 => Some(false), _ => Some(true) }).collect();
+        let key = format!("jones:partial:{name}:{}:{}", code_string(d), pat.iter().map(|p| match p { None => 'x', Some(false) => '0', Some(true) => '1' }).collect::<String>());
+        // reference bracket
+        let free: Vec<usize> = (0..n).filter(|&c| pat[c].is_none()).collect();
+        let mut want = Lp::new();
+        for s in 0..(1u32 << free.len()) {
+            let mut full = 0u32;
+            for c in 0..n {
+                if pat[c] == Some(true) {
+                    full |= 1 << c;
+                }
+            }
+            for (k, &c) in free.iter().enumerate() {
+                if s >> k & 1 == 1 {
+                    full |= 1 << c;
+                }
+            }
+            let ones = s.count_ones() as i64;
+            let circles = d.circles(full).1;
+            // (-q)^ones (q + 1/q)^circles
+            let mut term: Lp = [(ones, z(if ones % 2 == 0 { 1 } else { -1 }))].into_iter().collect();
+            for _ in 0..circles {
+                let mut next = Lp::new();
+                for (e, c) in &term {
+                    *next.entry(e + 1).or_insert_with(|| z(0)) += c.clone();
+                    *next.entry(e - 1).or_insert_with(|| z(0)) += c.clone();
+                }
+                term = next;
+            }
+            for (e, c) in term {
+                *want.entry(e).or_insert_with(|| z(0)) += c;
+            }
+        }
+        want.retain(|_, v| !v.is_zero());
+        // the library's diagram: smooth in increasing order of the original index
+        let r = catch(|| {
+            let mut l = link.clone();
+            let mut before = 0usize; // unsmoothed crossings with a smaller original index
+            for c in 0..n {
+                match pat[c] {
+                    None => before += 1,
+                    Some(b) => l = l.resolved_at(before, if b { Bit::Bit1 } else { Bit::Bit0 }),
+                }
+            }
+            let (np, nn) = l.signed_crossing_nums();
+            let unnorm = |m: Lp| -> Lp {
+                let sgn = if nn % 2 == 0 { 1 } else { -1 };
+                let sh = np as i64 - 2 * nn as i64;
+                m.into_iter().map(|(e, c)| (e - sh, c * z(sgn))).collect()
+            };
+            let t = bigraded_table(&KhComplexBigraded::<i64>::new(&l, &0, &0, false).homology());
+            let mut e = Lp::new();
+            for (&(i, j), md) in &t {
+                let s = if i.rem_euclid(2) == 0 { 1 } else { -1 };
+                *e.entry(j).or_insert_with(|| z(0)) += z(s * md.rank as i64);
+            }
+            e.retain(|_, v| !v.is_zero());
+            let p = jones_polynomial(&l);
+            let mut jm = Lp::new();
+            for (x, a) in p.iter() {
+                let ex: isize = x.deg();
+                if *a != 0 {
+                    *jm.entry(ex as i64).or_insert_with(|| z(0)) += z(*a as i64);
+                }
+            }
+            jm.retain(|_, v| !v.is_zero());
+            (unnorm(e), unnorm(jm), l.crossing_num())
+        });
+        run.add("evaluations", 2);
+        run.add("partially_smoothed_diagrams", 1);
+        match r {
+            Ok((e, jm, left)) => {
+                if left != free.len() {
+                    run.fail(&key, &format!("{left} crossings left, expected {}", free.len()), json!({"pd": d.pd()}));
+                }
+                if e != want {
+                    run.fail(&format!("{key}:euler"), &format!("Euler characteristic of Kh with the diagram's normalisation divided out {:?} != Kauffman bracket {:?}", e, want), json!({"pd": d.pd(), "smoothing": format!("{pat:?}")}));
+                }
+                if jm != want {
+                    run.fail(&format!("{key}:jones"), &format!("jones_polynomial with the diagram's normalisation divided out {:?} != Kauffman bracket {:?}", jm, want), json!({"pd": d.pd(), "smoothing": format!("{pat:?}")}));
+                }
+            }
+            Err(p) => run.fail(&key, &format!("panicked: {p}"), json!({"pd": d.pd(), "smoothing": format!("{pat:?}")})),
+        }
+    }
+}
+
 fn main() {
     let run = Run::new("C04", "exploration");
     let th = run.thorough();
@@ -78,6 +175,9 @@ fn main() {
         let Some(j) = check(&run, name, d, true) else { return };
         if i % 200 == 0 {
             run.sample(json!({"diagram": name, "pd": d.pd(), "jones": j.iter().map(|(e, c)| (e.to_string(), c.to_string())).collect::<Vec<_>>()}));
+        }
+        if d.n <= 3 {
+            check_partial(&run, name, d);
         }
         // invariance along every move edge, q -> 1/q under mirroring (library values)
         if d.n <= 3 {
